@@ -59,7 +59,7 @@ def run(ctx):
                        "mutual recursion; plus WHITESPACE/COMMENT bodies from a pool of 10; plus seeded random stack-free grammars. "
                        "A grammar is non-trivial if it contains a rule reference in leftmost position or a repetition; distinct = distinct grammars.")
     total = {"grammars": 0, "accepted": 0, "rejected": 0, "model_diverges": 0, "model_guarded": 0}
-    for (name, shards, size) in ([("rec", 12, 3), ("ws", 1, 1), ("twice", 2, 1), ("shadow", 1, 1), ("wsna", 1, 1), ("self", 2, 1)] if quick else [("rec", 16, 4), ("ws", 1, 1), ("twice", 2, 1), ("shadow", 1, 1), ("wsna", 1, 1), ("self", 2, 1)]):
+    for (name, shards, size) in ([("rec", 12, 3), ("ws", 1, 1), ("twice", 2, 1), ("shadow", 1, 1), ("wsna", 1, 1), ("self", 2, 1), ("three", 1, 1)] if quick else [("rec", 16, 4), ("ws", 1, 1), ("twice", 2, 1), ("shadow", 1, 1), ("wsna", 1, 1), ("self", 2, 1), ("three", 1, 1)]):
         cases, rs, n = gen_val(ctx, name, shards, size)
         for r in rs:
             ctx.cov["states"] += r.distinct
